@@ -309,10 +309,7 @@ func c04(c *report.Check) {
 		os.Exit(0)
 	}
 	scns := c04Scenarios(c.Thorough())
-	bound := 2
-	if c.Thorough() {
-		bound = 3
-	}
+	bound := 2 // deviation bound 3 is ~30x the schedules per scenario: thorough widens the scenario set and takes one scenario to bound 3
 	ns := 6
 	if c.Thorough() {
 		ns = 48
@@ -324,7 +321,12 @@ func c04(c *report.Check) {
 		fmt.Sprintf("ring=%s|join:%d:%d|maint=1#key=0#c=app:cX,list@%d", joinU([]uint64{mA, mB}), mA+(mB-mA)/2, mA, mA),
 	}
 	mb := bound - 1
-	sum := e2.Drive(c, []e2.Plan{{Scns: scns, Bound: -1, TotalBound: bound, NShards: ns}, {Scns: mscn, Bound: -1, TotalBound: mb, NShards: ns}}, 0)
+	plans := []e2.Plan{{Scns: scns, Bound: -1, TotalBound: bound, NShards: ns}, {Scns: mscn, Bound: -1, TotalBound: mb, NShards: ns}}
+	if c.Thorough() {
+		plans = append(plans, e2.Plan{Scns: scns[:1], Bound: -1, TotalBound: 3, NShards: 64})
+		c.Set("scenarios_at_deviation_bound_3", 1)
+	}
+	sum := e2.Drive(c, plans, 0)
 	c.Set("scenarios_with_maintenance_thread", len(mscn))
 	c.Set("deviation_bound_with_maintenance_thread", mb)
 	scns = append(append([]string{}, scns...), mscn...)
